@@ -61,6 +61,7 @@ type rewriter struct {
 	mapRange  map[*ast.RangeStmt]bool
 	chanRange map[*ast.RangeStmt]bool
 	ctxErr    map[*ast.CallExpr]bool
+	timeName  string
 	ctxCancel map[*ast.CallExpr]bool
 }
 
@@ -217,7 +218,7 @@ func (r *rewriter) rewriteStmts(l []ast.Stmt) []ast.Stmt {
 // forbidden constructs: the scheduler cannot control them, so an edited tree
 // that introduces one is rejected instead of being explored unsoundly.
 var forbidden = map[string]map[string]bool{
-	"time":      {"Sleep": true, "After": true, "NewTimer": true, "AfterFunc": true, "Tick": true, "NewTicker": true},
+	"time":      {"After": true, "NewTimer": true, "AfterFunc": true, "Tick": true, "NewTicker": true},
 	"os/signal": {"Notify": true, "NotifyContext": true},
 	"net":       {"Dial": true, "Listen": true, "DialTimeout": true},
 	"context":   {"WithTimeout": true, "WithDeadline": true, "WithTimeoutCause": true, "WithDeadlineCause": true},
@@ -310,6 +311,11 @@ func (r *rewriter) post(c *astutil.Cursor) bool {
 		if len(n.Args) == 1 && r.isBuiltin(n.Fun, "close") {
 			r.st.Closes++
 			c.Replace(r.vsCall("Close", n.Args[0]))
+		} else if r.isPkgFunc(n.Fun, "time", "Sleep") && len(n.Args) == 1 {
+			// a sleeping goroutine may be overtaken by any amount of other work: a
+			// scheduling point that takes no time is a sound model of it
+			r.timeName = n.Fun.(*ast.SelectorExpr).X.(*ast.Ident).Name
+			c.Replace(r.vsCall("Sleep", n.Args[0]))
 		} else if r.isPkgFunc(n.Fun, "context", "AfterFunc") && len(n.Args) == 2 {
 			c.Replace(r.vsCall("CtxAfterFunc", n.Args...))
 		} else if r.ctxErr[n] {
@@ -636,6 +642,11 @@ func (r *rewriter) file2(f *ast.File, isSem bool) ([]byte, error) {
 	}
 	if r.usesV {
 		astutil.AddNamedImport(r.fset, f, "vs", vsPath)
+	}
+	if r.timeName != "" {
+		// keep the import of package time used when its only use was the Sleep call
+		f.Decls = append(f.Decls, &ast.GenDecl{Tok: token.VAR, Specs: []ast.Spec{&ast.ValueSpec{
+			Names: []*ast.Ident{id("_")}, Type: &ast.SelectorExpr{X: id(r.timeName), Sel: id("Duration")}}}})
 	}
 	var buf bytes.Buffer
 	cfg := printer.Config{Mode: printer.UseSpaces | printer.TabIndent | printer.SourcePos, Tabwidth: 8}
